@@ -208,7 +208,7 @@ func isPermFault(k string) bool { return k == "unreadable" || k == "noread" || k
 
 func checkC13(c *Ctx) {
 	c.Level = "fault_enumeration"
-	c.Rule = "for seeded good populations (2-4 directories, colliding definitions): every fault kind (file: syntax error, semantic error, empty, unreleased version, dangling symlink, vanishes between listing and reading, replaced by invalid content between listing and reading [scan.beforeRead hook], unreadable; directory: missing, is a regular file, non-directory ancestor, no read permission, no search permission [child process as uid 65534]) plus a symbolic link to a directory, with and without a Spec name, next to the Spec files; at every configured-directory position and at up to 4 Spec files, alone or with a second random fault, manual mode (file faults also in auto-refresh mode), followed by a repair and another refresh; distinct_nontrivial = distinct (fault kind, position class first/middle/last or file's directory position, second fault kind, mode)"
+	c.Rule = "for seeded good populations (2-4 directories, colliding definitions): every fault kind (file: syntax error, semantic error, empty, unreleased version, dangling symlink, vanishes between listing and reading, replaced by invalid content between listing and reading [scan.beforeRead hook], unreadable; directory: missing, is a regular file, non-directory ancestor, no read permission, no search permission [child process as uid 65534]) plus a symbolic link to a directory, with and without a Spec name, next to the Spec files; at every configured-directory position and at up to 4 Spec files, alone or with a second random fault, manual mode (file faults also in auto-refresh mode), followed by a repair (the file rewritten with good content, renamed to a non-Spec name, moved out of the directory or removed) and another refresh; distinct_nontrivial = distinct (fault kind, position class first/middle/last or file's directory position, second fault kind, mode)"
 	c.Assume("permission faults are observed from a child running as uid 65534 (the harness itself is root)", "a file that vanished before it could be read need not be reported; Refresh()'s result is unconstrained for conflict-only populations and when a directory cannot be scanned", "M-RESOLVE: a directory that cannot be scanned contributes nothing")
 	os.Chmod(c.Scratch, 0o755)
 	npop := c.pick(14, 400)
@@ -496,6 +496,17 @@ func c13Scenario(cs *Case, base *Pop, f c13Fault, second *c13Fault, auto bool, n
 		return true
 	}
 	// the repaired population: everything as in the base
+	// how the cause of a file fault goes away: the file is rewritten with good
+	// content, or it leaves the directory (renamed to a non-Spec name, moved out,
+	// removed) - then the repaired population is the base without that file
+	repairStyle := "rewrite"
+	switch f.kind {
+	case "syntax", "semantic", "empty", "version", "dangling":
+		if second == nil {
+			repairStyle = []string{"rewrite", "rename-away", "move-out", "remove"}[caseSeed(c.Seed, "C13-repair", name)%4]
+		}
+	}
+	c.Count("repair_style:"+repairStyle, 1)
 	repair := func() *Pop {
 		// undo chmods, remove stray files standing in for directories
 		for i, d := range p.Phys {
@@ -516,8 +527,33 @@ func c13Scenario(cs *Case, base *Pop, f c13Fault, second *c13Fault, auto bool, n
 		for i := range q.Phys {
 			must(os.MkdirAll(q.Phys[i], 0o755))
 		}
+		if repairStyle != "rewrite" {
+			old := base.Files[f.target]
+			var keep []*PFile
+			for _, x := range q.Files {
+				if x != old {
+					keep = append(keep, x)
+				}
+			}
+			q.Files = keep
+		}
 		for _, x := range q.Files {
+			if repairStyle != "rewrite" {
+				break // the only fault is that file: nothing else is touched, so that its
+				// departure is the one and only change the watcher gets to see
+			}
 			q.writeFile(x)
+		}
+		if repairStyle != "rewrite" {
+			bad := q.path(base.Files[f.target])
+			switch repairStyle {
+			case "rename-away":
+				must(os.Rename(bad, bad+".bak"))
+			case "move-out":
+				must(os.Rename(bad, filepath.Join(q.Root, "moved-out-"+filepath.Base(bad))))
+			default:
+				must(os.Remove(bad))
+			}
 		}
 		return q
 	}
